@@ -77,6 +77,7 @@ class Model:
         self.charsets = {}               # name -> python set of characters
         self.class_attrs = {}            # (python class name, attr) -> ('global', key) | ('const', Val)
         self.trusted_notes = []
+        self.unassumed = set()           # obligation names recorded as refuted (known findings)
         self.listlike = {}               # model class that subclasses list -> its items field
         self.elem_inv = {}               # (class, list field) -> predicate over element x (assumed data invariant)
 
